@@ -104,5 +104,13 @@ CHECKS += [
         "note": "trusted: vlib/ref8323.py, vlib/refcodec.py, the fake stream transport; don't-care classes listed in the evidence assumptions",
     },
 ]
+CHECKS += [
+    {
+        "id": "C16", "engine": "Hypothesis (grammar-based, constructive)", "level": "exploration",
+        "technique": "grammar-based property testing: URIs built from components with an independent percent-encoder so that the RFC 7252 6.4 decomposition is known by construction; round-trip / fixed-point; injected rejection classes; mutation fuzzing for the exception class",
+        "text": "URIs are generated from their decomposition (so the expected options are known without parsing), option sets are composed and decomposed again, each documented rejection class is injected into valid URIs, arbitrary and mutated strings are checked for the exception class and (when syntactically RFC 3986) for the round trip, and host/port join/split are round-tripped. Sampled inputs.",
+        "note": "trusted: the independent percent-encoder / decoder and the RFC 3986 syntax regex in checks/c16.py, Python's ipaddress for IP literal normal forms",
+    },
+]
 claimed = {c["id"] for c in CHECKS}
 NOT_APPLICABLE = [{"property_id": i, "reason": "check not built yet in this session (planned, see DESIGN.md section 3); no claim is made"} for i in ALL if i not in claimed]
